@@ -142,6 +142,98 @@ fn adversarial<const D: usize>(id: &str, rng: &mut Rng, out: &mut Out) {
     out.end();
 }
 
+
+// ---------------------------------------------------------------------------------------------
+// Inconsistent predicates: `Kernel` is a public trait, so a kernel whose `in_sphere` lies is a
+// legitimate finite input.  Termination of the flip repair must then come from the budgets alone
+// (theorems loop_flips_bounded / loop_iters_bounded hold for ANY predicate behaviour).
+// ---------------------------------------------------------------------------------------------
+use delaunay::geometry::traits::coordinate::CoordinateConversionError;
+use std::cell::Cell as StdCell;
+
+thread_local! {
+    static LIE_MODE: StdCell<u8> = const { StdCell::new(0) };        // 0 honest, 1 always inside, 2 alternate, 3 pseudo-random
+    static LIE_CALLS: StdCell<u64> = const { StdCell::new(0) };
+    static LIE_CEILING: StdCell<u64> = const { StdCell::new(u64::MAX) };
+}
+
+#[derive(Clone, Default, Debug)]
+pub struct LyingKernel { inner: RobustKernel<f64> }
+
+impl<const D: usize> Kernel<D> for LyingKernel {
+    type Scalar = f64;
+    fn orientation(&self, points: &[Point<f64, D>]) -> Result<i32, CoordinateConversionError> {
+        <RobustKernel<f64> as Kernel<D>>::orientation(&self.inner, points)
+    }
+    fn in_sphere(&self, simplex: &[Point<f64, D>], test: &Point<f64, D>) -> Result<i32, CoordinateConversionError> {
+        let mode = LIE_MODE.with(|m| m.get());
+        if mode == 0 { return <RobustKernel<f64> as Kernel<D>>::in_sphere(&self.inner, simplex, test); }
+        let calls = LIE_CALLS.with(|c| { c.set(c.get() + 1); c.get() });
+        if calls > LIE_CEILING.with(|c| c.get()) {
+            // breaker: past the budget-implied work bound every query fails, which drains the queue
+            return Err(CoordinateConversionError::NonFiniteValue { coordinate_index: 0, coordinate_value: "work ceiling".to_string() });
+        }
+        Ok(match mode {
+            1 => 1,
+            2 => if calls % 2 == 0 { 1 } else { -1 },
+            _ => { let mut z = calls.wrapping_mul(0x9E37_79B9_7F4A_7C15); z ^= z >> 29; [1, 1, -1, 0][(z % 4) as usize] }
+        })
+    }
+}
+
+/// the budget-implied bound on in-sphere evaluations of one repair call (mirrors Budget.workBound)
+fn work_bound(d: u64, cells: u64, debug: bool) -> u64 {
+    let b = if debug && d >= 4 { (cells * (d + 1) * 4).max(4096) } else { let m = if debug && d == 3 { 8 } else { 4 }; (cells * (d + 1) * m).max(512) };
+    let comb = if d <= 2 { d + 1 } else { (d + 1) + (d + 1) * d / 2 + (d + 1) * d * (d - 1) / 6 }; // facets (+ ridges/edges + triangles) of one cell
+    let queue0 = cells * comb;
+    let e = (if d <= 2 { 2 } else { d + 2 }) * comb;
+    let iters = queue0 + (b + 1) * (e + 1);
+    let per_item = if d <= 2 { 2 } else { 2 * (d + 2) };
+    6 * per_item * iters + 6 * 2 * (d + 1) * cells
+}
+
+fn lying<const D: usize>(id: &str, rng: &mut Rng, out: &mut Out, np: usize) {
+    let pts = gens::to_f(&gens::random_grid(rng, D, np, 60), 1.0, 0.0);
+    if pts.len() < D + 2 { return; }
+    let vs: Vec<Vertex<f64, i32, D>> = pts.iter().enumerate().map(|(i, p)| Vertex::new_with_uuid(Point::new(gens::arr::<D>(p)), rng.uuid(), Some(i as i32))).collect();
+    LIE_MODE.with(|m| m.set(0));
+    let kernel = LyingKernel::default();
+    let Ok(Ok(mut dt)) = catch(|| DelaunayTriangulation::<LyingKernel, i32, i32, D>::with_kernel(&kernel, &vs)) else { return };
+    let cells = dt.number_of_cells() as u64;
+    if cells == 0 { return; }
+    let debug = cfg!(debug_assertions);
+    let bound = work_bound(D as u64, cells, debug);
+    out.case(id, "bud", &format!("D={D} debug={}", debug as u8));
+    for mode in 1u8..=3 {
+        for adv in [false, true] {
+            let before = crate::common::fingerprint(dt.tds());
+            LIE_CALLS.with(|c| c.set(0));
+            LIE_CEILING.with(|c| c.set(bound));
+            LIE_MODE.with(|m| m.set(mode));
+            let t = Instant::now();
+            let r = catch(|| if adv { dt.repair_delaunay_with_flips_advanced(DelaunayRepairHeuristicConfig::default()).map(|o| o.stats) } else { dt.repair_delaunay_with_flips() });
+            let secs = t.elapsed().as_secs_f64();
+            LIE_MODE.with(|m| m.set(0));
+            let calls = LIE_CALLS.with(|c| c.get());
+            let unchanged = crate::common::fingerprint(dt.tds()) == before;
+            let (res, flips, maxf) = match &r {
+                Ok(Ok(st)) => ("ok".to_string(), st.flips_performed as i64, -1i64),
+                Ok(Err(e)) => {
+                    let s = format!("{e:?}");
+                    if let delaunay::core::algorithms::flips::DelaunayRepairError::NonConvergent { max_flips, diagnostics } = e {
+                        ("nonconvergent".to_string(), diagnostics.flips_performed as i64, *max_flips as i64)
+                    } else { (format!("err:{}", tri::err_kind(&s)), -1, -1) }
+                }
+                Err(m) => (format!("panic:{m}"), -1, -1),
+            };
+            // bk <D> <cells at call time> <mode> <adv> <calls> <result> <flips> <max_flips> <unchanged> <secs>
+            out.line(&format!("bk {D} {} {mode} {} {calls} {res} {flips} {maxf} {} {secs:.1}", dt.number_of_cells().max(cells as usize), adv as u8, unchanged as u8));
+            if calls > bound { out.end(); return; } // the breaker tripped: reported, no need to repeat
+        }
+    }
+    out.end();
+}
+
 pub fn run(cfg: &Cfg, rng: &mut Rng, out: &mut Out) {
     let thorough = cfg.tier == "thorough";
     let n = if thorough { 200 } else { 24 };
@@ -152,5 +244,10 @@ pub fn run(cfg: &Cfg, rng: &mut Rng, out: &mut Out) {
             4 => { budgets::<4>(&format!("k{i}"), rng, out); adversarial::<4>(&format!("a{i}"), rng, out); }
             _ => { budgets::<5>(&format!("k{i}"), rng, out); adversarial::<5>(&format!("a{i}"), rng, out); }
         }
+    }
+    for i in 0..(if thorough { 6 } else { 2 }) {
+        lying::<2>(&format!("y2_{i}"), rng, out, 40);
+        lying::<3>(&format!("y3_{i}"), rng, out, 14);
+        if thorough || i == 0 { lying::<4>(&format!("y4_{i}"), rng, out, 9); }
     }
 }
